@@ -21,7 +21,8 @@ let () = register "verify" (fun args -> match args with
        | Some (l, k) -> Printf.sprintf "%d/%d" (int_of_n l) (int_of_n k)
        | None -> "none")
   | _ -> "usage")
-(* textcerts <image hex> <hex string> <mods> <lo> <hi> ... (one group per string) -> per string: fits=<b> xorkeys=<b> agree=<b> nonul=<b> *)
+(* textcerts <image hex> <hex string> <mods> <lo> <hi> ... (one group per string)
+   -> per string: sound=<b> complete=<b> fitsflag=<b> xorkeys=<b> agree=<b> nonul=<b> atoms=hex/bt,...   (Model/Verify.v text_certs, complete_certs: the _on forms applied to atoms_of = atoms_for (all_atoms cr) i, computed once per image) *)
 let () = register "textcerts" (fun args -> match args with
   | img :: rest ->
       (match arena_load cfg_current (unhex img) with
@@ -34,8 +35,11 @@ let () = register "textcerts" (fun args -> match args with
                  let ys = List.nth (cr_strings cr) i in
                  let vf = vflags_of (ys_flags ys) in
                  let m = parse_mods fl lo hi in
-                 Printf.sprintf "fits=%b fitsflag=%b xorkeys=%b agree=%b nonul=%b" (fits_ok vf (unhex s) m at) vf.vf_fits
-                   (xor_keys_ok vf (unhex s) m at) (flags_agree vf m) (nonul (unhex s)) :: go (i + 1) tl
+                 let sb = unhex s in
+                 Printf.sprintf "sound=%b complete=%b fitsflag=%b xorkeys=%b agree=%b nonul=%b atoms=%s"
+                   (text_certs_on at vf sb m) (complete_certs_on at vf sb m) vf.vf_fits
+                   (xor_keys_ok vf sb m at) (flags_agree vf m) (nonul sb)
+                   (String.concat "," (List.map (fun (a, bt) -> hex a ^ "/" ^ string_of_int (int_of_n bt)) at)) :: go (i + 1) tl
              | _ -> [] in
            String.concat " | " (go 0 rest)
        | _ -> "load-failed")
